@@ -111,6 +111,11 @@ func TestVerifC17Chain(t *testing.T) {
 		defaults.RegisterUpTo("resolver")
 		middleware.Register(witness.Name(), func(*config.Config) middleware.Handler { return witness })
 		cfg := &config.Config{Bind: "127.0.0.1:0", Expire: 600, CacheSize: 10240, AccessList: cidrs}
+		reflexOn := r.Intn(3) == 0
+		if reflexOn { // an answering handler that only speaks under load: amplification detection in block mode
+			cfg.ReflexEnabled = true
+			cfg.ReflexBlockMode = true
+		}
 		cfg.QueryTimeout.Duration = 10 * time.Second
 		middleware.Setup(cfg)
 		s := New(cfg)
@@ -147,7 +152,37 @@ func TestVerifC17Chain(t *testing.T) {
 			if !src.IsValid() {
 				src = g.Addr()
 			}
-			for path := 0; path < 3; path++ {
+			// a burst of high-amplification queries from this source over UDP, before anything else is heard from it (a TCP exchange would mark the source as unspoofed): whatever
+			// runs ahead of the access list must not start answering a denied source under load
+			{
+				before := witness.calls
+				replied := false
+				nb := 40 + r.Intn(40)
+				for i := 0; i < nb; i++ {
+					q := new(dns.Msg)
+					q.SetQuestion("example.org.", []uint16{dns.TypeDNSKEY, dns.TypeANY, dns.TypeTXT}[pr%3])
+					q.SetEdns0(4096, true)
+					if pr%2 == 0 {
+						mw := mock.NewWriter("udp", netip.AddrPortFrom(src, 4242).String())
+						s.ServeMsg(context.Background(), mw, q)
+						replied = replied || mw.Written()
+					} else {
+						raw, _ := q.Pack()
+						job := &strictTestJob{remote: net.UDPAddr{IP: net.IP(src.AsSlice()), Port: 4242}}
+						s.ServeRaw(job, raw, time.Now())
+						replied = replied || len(job.wrote) > 0
+					}
+				}
+				delta := witness.calls - before
+				b, _ := json.Marshal(map[string]any{
+					"k":          "chain-burst",
+					"coq":        fmt.Sprintf("CaseChainBurst %d [%s] (mk_addr %v %s) %d %v %d", len(cidrs), strings.Join(pcoq, "; "), src.Is4(), vC17Big(src).String(), nb, replied, delta),
+					"nontrivial": true,
+					"desc":       map[string]any{"accesslist": cidrs, "src": src.String(), "burst": nb, "reflex_block_mode": reflexOn, "any_reply": replied, "resolver_calls": delta},
+				})
+				f.Write(append(b, '\n'))
+			}
+			for path := 0; path < 4; path++ {
 				for _, cached := range []bool{true, false} {
 					name := warm
 					if !cached {
@@ -157,6 +192,12 @@ func TestVerifC17Chain(t *testing.T) {
 					q := new(dns.Msg)
 					q.SetQuestion(name, dns.TypeA)
 					q.SetEdns0(1232, false)
+					// a shape the engine's header check admits but the strict parser declines
+					// (OPT plus one more additional record): it takes the decoded fallback
+					declined := (path == 0 || path == 3) && r.Intn(3) == 0
+					if declined {
+						q.Extra = append(q.Extra, &dns.TXT{Hdr: dns.RR_Header{Name: "x.", Rrtype: dns.TypeTXT, Class: dns.ClassINET, Ttl: 0}, Txt: []string{"v"}})
+					}
 					before := witness.calls
 					replied := false
 					switch path {
@@ -164,6 +205,14 @@ func TestVerifC17Chain(t *testing.T) {
 						raw, _ := q.Pack()
 						job := &strictTestJob{remote: net.UDPAddr{IP: net.IP(src.AsSlice()), Port: 4242}}
 						s.ServeRaw(job, raw, time.Now())
+						replied = len(job.wrote) > 0
+					case 3: // the UDP reader's inline pass, then the worker's replay when it hands off
+						raw, _ := q.Pack()
+						job := &strictTestJob{remote: net.UDPAddr{IP: net.IP(src.AsSlice()), Port: 4242}}
+						now := time.Now()
+						if !s.ServeRawInline(job, raw, now) && len(job.wrote) == 0 {
+							s.ServeRawReplay(job, raw, now)
+						}
 						replied = len(job.wrote) > 0
 					case 1:
 						mw := mock.NewWriter("udp", netip.AddrPortFrom(src, 4242).String())
@@ -183,7 +232,7 @@ func TestVerifC17Chain(t *testing.T) {
 						"k":          k,
 						"coq":        fmt.Sprintf("CaseChain %d [%s] (mk_addr %v %s) %d %v %v %d", len(cidrs), strings.Join(pcoq, "; "), src.Is4(), vC17Big(src).String(), path, cached, replied, delta),
 						"nontrivial": true,
-						"desc":       map[string]any{"accesslist": cidrs, "src": src.String(), "path": []string{"wire", "decoded-udp", "decoded-tcp"}[path], "cached_name": cached, "replied": replied, "resolver_calls": delta},
+						"desc":       map[string]any{"accesslist": cidrs, "src": src.String(), "path": []string{"wire", "decoded-udp", "decoded-tcp", "inline+replay"}[path], "strict_declined_shape": declined, "reflex_block_mode": reflexOn, "cached_name": cached, "replied": replied, "resolver_calls": delta},
 					})
 					f.Write(append(b, '\n'))
 				}
